@@ -321,6 +321,7 @@ func StatName(fid uint32) string { return fmt.Sprintf("peerfile-%d", fid) }
 // Fids at or above ErrFid are answered with Rerror, fids in [WrongFid, ErrFid) with a reply of the wrong type.
 const (
 	WrongFid = 0x40000000
+	EchoFid  = 0x48000000 // fids in [EchoFid, ErrFid) get their own request echoed back
 	ErrFid   = 0x50000000
 )
 
@@ -339,6 +340,11 @@ func (p *Peer) Answer(t *wire.Msg) *wire.Msg {
 			r.Ecode = ErrNum(fid)
 		}
 		return r
+	}
+	if t.Type != wire.Tversion && t.Type != wire.Tflush && fid >= EchoFid && fid < ErrFid {
+		// a peer that sends the request back (a loop-back, a confused proxy): a T-message is not a reply
+		e := *t
+		return &e
 	}
 	if t.Type != wire.Tversion && t.Type != wire.Tflush && fid >= WrongFid && fid != wire.NOFID {
 		if t.Type == wire.Tclunk {
